@@ -17,17 +17,29 @@ Init == tid \in 1..Len(Obs) /\ verdict = "running"
 
 Reject(clause) == verdict' = "rejected" /\ PrintT(<<"REJECT", tid, clause>>) /\ UNCHANGED tid
 
+(* O.fk: fine parts of the probabilities in units of 2^-O.K, O.tf: fine part of the tolerance (all zero in most  *)
+(* observations).  The fine unit must be negligible against one coarse step, else the observation is malformed.   *)
+MaxFine == 64
+FineNegligible ==
+  /\ O.K >= 35 /\ M.PD * O.td <= 16777216 /\ O.tf \in 0..MaxFine
+  /\ \A s \in States(M) : \A a \in Actions(M) : \A e \in Events(M) : O.fk[s][a][e] \in (0 - 8)..8
+HasFine == O.tf # 0 \/ \E s \in States(M) : \E a \in Actions(M) : \E e \in Events(M) : O.fk[s][a][e] # 0
+
 Judge ==
   /\ verdict = "running"
-  /\ IF SomeDeviates(M, O.tn, O.td)
+  /\ IF HasFine /\ ~FineNegligible THEN Reject("MACHINERY: fine parts are not negligible against a coarse step")
+     ELSE IF SomeDeviatesF(M, O.fk, O.tn, O.td, O.tf)
      THEN (IF O.outcome # "error"
              THEN Reject("a state-action pair deviates from one by more than the tolerance but no ValueError was raised")
-           ELSE IF ~(O.errs \in States(M) /\ O.erra \in Actions(M) /\ Deviates(M, O.errs, O.erra, O.tn, O.td))
+           ELSE IF ~(O.errs \in States(M) /\ O.erra \in Actions(M) /\ DeviatesF(M, O.fk, O.errs, O.erra, O.tn, O.td, O.tf))
              THEN Reject("the ValueError does not name a pair that deviates by more than the tolerance")
            ELSE verdict' = "accepted" /\ PrintT(<<"ACCEPT", tid>>) /\ UNCHANGED tid)
      ELSE IF O.outcome # "ok" THEN Reject("an error was raised although every row is within the tolerance")
      ELSE IF ~O.shapeok THEN Reject("returned matrices do not have shapes [A,S,S] and [S,A]")
      ELSE IF ~O.unit THEN Reject("a returned transition row does not sum to one")
+     ELSE IF HasFine THEN (IF ~O.propok
+                             THEN Reject("renormalised transition entries are not proportional to the accumulated probabilities")
+                           ELSE verdict' = "accepted" /\ PrintT(<<"ACCEPT", tid>>) /\ UNCHANGED tid)
      ELSE IF AllExact(M) /\ ~(O.pok /\ O.P = PNum(M))
        THEN Reject("transition entry is not the total probability of the events leading to that successor")
      ELSE IF ~AllExact(M) /\ ~O.propok
